@@ -5,6 +5,7 @@ import DimodProofs.C03Witness
 import DimodProofs.C03Fix
 import DimodProofs.C03CopyCqm
 import DimodProofs.C03Multi
+import DimodProofs.C03Mixin
 
 /-! # C03 — fixing a variable equals substituting its value everywhere
 
@@ -32,6 +33,23 @@ theorem fix_preserves_invariant (m : QMB R) (hm : m.WF) (v : Nat) (hv : v < m.n)
   have hpre := QMB.WF_fixPre m hm v a
   have hvn : v < (m.fixPre v a).n := by rw [QMB.n_fixPre]; exact hv
   exact ⟨QMB.WF_removeVariable _ hpre v hvn, by rw [QMB.fixVariable_eq, QMB.n_removeVariable _ v hvn, QMB.n_fixPre]⟩
+
+/-- **both paths agree**: `QuadraticViewsMixin.fix_variable` as coded on an array back-end (`add_linear(u, value*bias)` for every
+    neighbour in neighbourhood order — a squared term lands on `v`'s own linear bias —, then `offset += value*get_linear(v)`, then
+    `remove_variable(v)`) builds the very model `abc.h::fix_variable` builds; in particular the same energies (`fix_eval`) -/
+theorem fix_mixin_eq_cpp (m : QMB R) (v : Nat) (a : R) : m.fixVariableMixin v a = m.fixVariable v a :=
+  QMB.fixVariableMixin_eq m v a
+
+/-- **`fix_variables(fixed)` of a BQM / QM** through the mixin loop, by label, in the order of the given pairs, squared terms
+    included: for distinct labels of the model and any valuation `val` giving every fixed label its value, the call succeeds, the
+    remaining labels are the others in their order, the invariant holds again, and the result evaluated at
+    `k ↦ val (remaining label k)` has the energy of the original at `g ↦ val (label g)` -/
+theorem qm_fix_many_eval (m : QmL R) (hm : m.Ok) (fixed : List (Label × R)) (hfd : (fixed.map (·.1)).Nodup)
+    (hall : ∀ p ∈ fixed, p.1 ∈ m.labels) (val : Label → R) (hval : ∀ p ∈ fixed, val p.1 = p.2) :
+    let r := m.fixVariables fixed
+    r.2 = true ∧ r.1.Ok ∧ r.1.labels.Sublist m.labels ∧ (∀ l, l ∈ r.1.labels ↔ l ∈ m.labels ∧ l ∉ fixed.map (·.1)) ∧
+    r.1.qb.energy (valL val r.1.labels) = m.qb.energy (valL val m.labels) :=
+  QmL.fixVariables_spec m hm fixed hfd hall val hval
 
 /-- the CQM in-place path on one expression (`substitute_variable(v, 0, a)` then `remove_variable(v)`, repaired D4):
     same statement -/
@@ -90,7 +108,13 @@ theorem fix_variable_eq_substitute_remove (m : QMB R) (hm : m.WF) (v : Nat) (hv 
     the original at the assignment that gives fixed variables their values and the `k`-th remaining variable `X' k`;
     sense, rhs, weight, penalty, order of constraints unchanged; the variable table keeps the remaining rows in order.
     `ExprOk`: the expression is well-formed, mentions only variables of the model, and has no squared term on a
-    BINARY/SPIN variable. -/
+    BINARY/SPIN variable.
+    **Local order vs model order**: an expression stores its own variable list `e.vars` (`variables_`: model indices, in the
+    order the expression first met them — any duplicate-free list, not sorted, not a prefix of the model's) and its
+    biases by *local* index.  `Expr.fixVariablesExpr` as coded takes the local index `i` of a term to the model index
+    `g = e.vars[i]` first and looks up `old_to_new[g]` / `assignments[g]` by that MODEL index; `energyCpp X` on the right
+    reads `X (e.vars[i])` likewise.  So the statement is about every such expression; a lookup by local index
+    (`assignments[i]`) falsifies it whenever `e.vars ≠ [0, 1, …]` (the example at the end: `variables_ = [2, 0]`). -/
 theorem cqm_fix_copy_eval [DecidableEq R] (m : CqmC R) (hobj : CqmC.ExprOk m m.obj) (hcons : ∀ k ∈ m.cons, CqmC.ExprOk m k.e)
     (fixed : List (Nat × R)) (X' : Nat → R) :
     let m' := m.fixVariables fixed
@@ -151,6 +175,17 @@ theorem d4_witness : (D4Witness.cqm0.fixVariableOld 0 2).obj.qb.off ≠ 17 :=
   D4Witness.fix_inplace_wrong_on_selfloop
 
 /-! ## non-vacuity -/
+
+/-- the copying path on an expression whose *local* variable order differs from the model's: a model with variables 0, 1, 2, the
+    expression `5·x₂ + 7·x₀ + x₂·x₀` stored with `variables_ = [2, 0]`; fixing model variable 2 to 3 (`assignments[2] = 3`, looked
+    up by MODEL index) leaves `15 + 10·x₀` over the new index of old variable 0 -/
+example :
+    let e : Expr Rat := { vars := [2, 0], qb := { lin := [5, 7], adj := some [[(1, 1)], [(0, 1)]], off := 0 } }
+    let m : CqmC Rat := { obj := e, cons := [], info := [⟨.integer, 0, 9⟩, ⟨.integer, 0, 9⟩, ⟨.integer, 0, 9⟩] }
+    (m.fixVariables [(2, 3)]).obj.vars = [0] ∧ (m.fixVariables [(2, 3)]).obj.qb.lin = [10] ∧
+      (m.fixVariables [(2, 3)]).obj.qb.off = 15 := by decide +kernel
+
+
 
 example : (({ lin := [2], adj := some [[(0, 3)]], off := 1 } : QMB Rat).fixVariable 0 2).off = 17 := by decide +kernel
 example : (D4Witness.cqm0.fixVariable 0 2).obj.qb.off = 17 := D4Witness.fix_inplace_new_value
